@@ -3,6 +3,7 @@ package props
 import (
 	"go/token"
 	"go/types"
+	"sort"
 	"strings"
 
 	"golang.org/x/tools/go/ssa"
@@ -440,9 +441,98 @@ func runC02(c *Ctx) {
 		if cn == nil {
 			return
 		}
-		tbl := switchTable(cn, func(v ssa.Value) bool { return core.IsNamed(v.Type(), core.PkgCh, "Compression") })
+		// the function holding the option switch: Connect or a package helper it calls
+		isSel := func(v ssa.Value) bool { return core.IsNamed(v.Type(), core.PkgCh, "Compression") }
+		var sw *ssa.Function
+		for _, f := range append([]*ssa.Function{cn}, core.StaticReachList(cn)...) {
+			if f == nil || f.Blocks == nil || f.Pkg == nil || f.Pkg.Pkg.Path() != core.PkgCh {
+				continue
+			}
+			if n := len(switchTable(f, isSel)); n > 0 && (sw == nil || n > len(switchTable(sw, isSel)) || n == len(switchTable(sw, isSel)) && f.String() < sw.String()) {
+				sw = f
+			}
+		}
+		if sw == nil {
+			c.R.Unk(rule, "table", cfg, p.Pos(cn.Pos()), "no switch over ch.Compression reachable from Connect")
+			return
+		}
 		enabled, _ := constOf(p, core.PkgProto, "CompressionEnabled")
-		n := 0
+		// partial evaluation of sw with the option fixed to k: blocks feasible when
+		// every `option == const` test takes the matching edge
+		feasibleFor := func(k int64) map[*ssa.BasicBlock]bool {
+			seen := map[*ssa.BasicBlock]bool{}
+			var walk func(b *ssa.BasicBlock)
+			walk = func(b *ssa.BasicBlock) {
+				if seen[b] {
+					return
+				}
+				seen[b] = true
+				if ifi, ok := b.Instrs[len(b.Instrs)-1].(*ssa.If); ok {
+					if bo, ok := ifi.Cond.(*ssa.BinOp); ok && bo.Op == token.EQL && isSel(bo.X) {
+						if v, okc := core.ConstInt(bo.Y); okc {
+							if v == k {
+								walk(b.Succs[0])
+							} else {
+								walk(b.Succs[1])
+							}
+							return
+						}
+					}
+				}
+				for _, sc := range b.Succs {
+					walk(sc)
+				}
+			}
+			walk(sw.Blocks[0])
+			return seen
+		}
+		var eval func(v ssa.Value, feas map[*ssa.BasicBlock]bool, d int, out map[int64]bool) bool
+		eval = func(v ssa.Value, feas map[*ssa.BasicBlock]bool, d int, out map[int64]bool) bool {
+			if k, ok := core.ConstInt(v); ok {
+				out[k] = true
+				return true
+			}
+			if ph, ok := v.(*ssa.Phi); ok && d < 6 {
+				for i, e := range ph.Edges {
+					if feas[ph.Block().Preds[i]] {
+						if !eval(e, feas, d+1, out) {
+							return false
+						}
+					}
+				}
+				return true
+			}
+			return false
+		}
+		selected := func(feas map[*ssa.BasicBlock]bool, pkg, name string) (map[int64]bool, bool) {
+			out := map[int64]bool{}
+			okAll := true
+			for _, b := range sw.Blocks {
+				if !feas[b] {
+					continue
+				}
+				for _, in := range b.Instrs {
+					var vals []ssa.Value
+					switch x := in.(type) {
+					case *ssa.Phi:
+						vals = []ssa.Value{x}
+					case *ssa.Return:
+						vals = x.Results
+					case *ssa.Store:
+						vals = []ssa.Value{x.Val}
+					}
+					for _, v := range vals {
+						if v != nil && core.IsNamed(v.Type(), pkg, name) {
+							if !eval(v, feas, 0, out) {
+								okAll = false
+							}
+						}
+					}
+				}
+			}
+			return out, okAll
+		}
+		only := func(m map[int64]bool, k int64) bool { return len(m) == 1 && m[k] }
 		for _, nm := range []string{"LZ4", "LZ4HC", "ZSTD", "None"} {
 			kv, ok := constOf(p, core.PkgCh, "Compression"+nm)
 			mv, ok2 := constOf(p, core.PkgCompress, nm)
@@ -450,48 +540,24 @@ func runC02(c *Ctx) {
 				c.R.Unk(rule, "Compression"+nm, cfg, "", "constant missing")
 				continue
 			}
-			blk := tbl[kv]
-			if blk == nil {
-				c.R.Bad(rule, "Compression"+nm, cfg, p.Pos(cn.Pos()), "Connect has no case for this compression option: it silently runs uncompressed")
-				continue
+			feas := feasibleFor(kv)
+			flags, okF := selected(feas, core.PkgProto, "Compression")
+			meths, okM := selected(feas, core.PkgCompress, "Method")
+			pos := p.Pos(sw.Pos())
+			switch {
+			case !okF || !okM:
+				c.R.Unk(rule, "Compression"+nm, cfg, pos, "a selected value is not a constant")
+			case only(flags, enabled) && only(meths, mv):
+				c.R.Ok(rule, "Compression"+nm, cfg, pos, "-> CompressionEnabled, compress."+nm+" (in "+sw.Name()+")")
+			default:
+				c.R.Bad(rule, "Compression"+nm, cfg, pos, sprintf("option Compression%s does not select exactly (CompressionEnabled, compress.%s): flags=%v methods=%v", nm, nm, keysOf(flags), keysOf(meths)))
 			}
-			n++
-			// the phi values selected from this case block
-			okFlag, okMethod := false, false
-			for _, b := range cn.Blocks {
-				for _, in := range b.Instrs {
-					ph, isPhi := in.(*ssa.Phi)
-					if !isPhi {
-						continue
-					}
-					for i, e := range ph.Edges {
-						if b.Preds[i] != blk {
-							continue
-						}
-						k, okc := core.ConstInt(e)
-						if !okc {
-							continue
-						}
-						if core.IsNamed(ph.Type(), core.PkgProto, "Compression") && k == enabled {
-							okFlag = true
-						}
-						if core.IsNamed(ph.Type(), core.PkgCompress, "Method") && k == mv {
-							okMethod = true
-						}
-					}
-				}
-			}
-			if okFlag && okMethod {
-				c.R.Ok(rule, "Compression"+nm, cfg, p.Pos(blk.Instrs[0].Pos()), "-> CompressionEnabled, compress."+nm)
-			} else {
-				c.R.Bad(rule, "Compression"+nm, cfg, p.Pos(blk.Instrs[0].Pos()), sprintf("option Compression%s does not select (CompressionEnabled, compress.%s): enabled=%v method=%v", nm, nm, okFlag, okMethod))
-			}
-		}
-		if n < 4 {
-			c.R.Unk(rule, "table", cfg, p.Pos(cn.Pos()), sprintf("%d of 4 compression options found in Connect's switch", n))
 		}
 	}()
 
+	ruleRebuild(c, p, "C02.rebuild")
+	ruleCompressDst(c, p, "C02.dst")
+	ruleDict(c, p, "C02.dict")
 	ruleVersionArgs(c, p, "C02.version")
 	rb := p.Method(core.PkgCompress, "Reader", "readBlock")
 	wr := p.Method(core.PkgCompress, "Writer", "Compress")
@@ -509,4 +575,13 @@ func runC02(c *Ctx) {
 func isBufAddr(v ssa.Value) bool {
 	fa, ok := v.(*ssa.FieldAddr)
 	return ok && core.IsNamed(fa.X.Type(), core.PkgProto, "Buffer") && fieldNameOnly(fa.X.Type(), fa.Field) == "Buf"
+}
+
+func keysOf(m map[int64]bool) []int64 {
+	var out []int64
+	for k := range m {
+		out = append(out, k)
+	}
+	sort.Slice(out, func(i, j int) bool { return out[i] < out[j] })
+	return out
 }
